@@ -6,7 +6,7 @@ import os
 import subprocess
 
 HERE = os.path.dirname(os.path.abspath(__file__))
-DRIVER = os.path.join(HERE, '..', 'coq', 'extract', 'driver')
+DRIVER = os.environ.get('VERIF_DRIVER') or os.path.join(HERE, '..', 'coq', 'extract', 'driver')
 
 
 def dumps(x, out=None):
